@@ -30,10 +30,11 @@ const (
 	kDict
 	kSet
 	kMixed // a list whose elements are unorderable, not all strings and not all hashable: ["a", 1, [2]]
+	kPairs // a list of "pairs" whose second element is the NEXT collection of the world (of length 3, not 2): [("a", 1), c1]
 )
 
-var kindName = []string{"list", "dict", "set", "mixedlist"}
-var base = []string{"a", "b", "c"}
+var kindName = []string{"list", "dict", "set", "mixedlist", "pairlist"}
+var base = []string{"a", "b", "c", "d", "e"}
 
 // ---- the world ----
 type world struct {
@@ -42,9 +43,11 @@ type world struct {
 	colls  []starlark.Value
 }
 
-func newWorld(kinds []int, frozen []bool) *world {
-	w := &world{kinds: kinds, frozen: frozen}
-	for i, k := range kinds {
+func newWorld(kinds []int, frozen []bool, sizes []int) *world {
+	w := &world{kinds: kinds, frozen: frozen, colls: make([]starlark.Value, len(kinds))}
+	for i := len(kinds) - 1; i >= 0; i-- { // last first: a pair list refers to the collection after it
+		k := kinds[i]
+		base := base[:sizes[i]]
 		var v starlark.Value
 		switch k {
 		case kList:
@@ -65,15 +68,28 @@ func newWorld(kinds []int, frozen []bool) *world {
 				s.Insert(starlark.String(e))
 			}
 			v = s
-		default:
+		case kMixed:
 			v = starlark.NewList([]starlark.Value{starlark.String("a"), starlark.MakeInt(1), starlark.NewList([]starlark.Value{starlark.MakeInt(2)})})
+		default:
+			v = starlark.NewList([]starlark.Value{starlark.Tuple{starlark.String("a"), starlark.MakeInt(1)}, w.colls[i+1]})
 		}
 		if frozen[i] {
 			v.Freeze()
 		}
-		w.colls = append(w.colls, v)
+		w.colls[i] = v
 	}
 	return w
+}
+
+// the initial content of a collection, as content() reports it
+func initialContent(kind, size int) []string {
+	switch kind {
+	case kMixed:
+		return []string{"a", "1", "INNER"}
+	case kPairs:
+		return []string{"PAIR", "INNER"}
+	}
+	return append([]string{}, base[:size]...)
 }
 
 func content(v starlark.Value) []string {
@@ -99,8 +115,13 @@ func content(v starlark.Value) []string {
 }
 
 func str(v starlark.Value) string {
-	if s, ok := v.(starlark.String); ok {
-		return string(s)
+	switch v := v.(type) {
+	case starlark.String:
+		return string(v)
+	case starlark.Tuple:
+		return "PAIR"
+	case *starlark.List, *starlark.Dict, *starlark.Set:
+		return "INNER"
 	}
 	return v.String()
 }
@@ -201,42 +222,86 @@ type mutDef struct {
 	op     bool   // interpreter opcode (SMutate) rather than a method call
 	coq    string // mut constructor with %m
 	adding bool   // appends the marker when accepted
+	min    int    // smallest collection the argument shape makes sense for (0: any)
+	shape  bool   // an argument-shape variant: only generated where it has to be refused
 }
 
 var muts = [][]mutDef{
 	{ // list
-		{"append", "%c.append(%m)", false, false, "MAppend %m", true},
-		{"setindex", "%c[0] = %m", true, true, "MSetIndex 0 %m", false},
-		{"clear", "%c.clear()", false, false, "MClear", false},
-		{"insert", "%c.insert(0, %m)", false, false, "MInsert 0 %m", false},
-		{"pop", "%c.pop()", false, false, "MPop", false},
-		{"remove", "%c.remove(\"c\")", false, false, "MPop", false},
-		{"extend", "%c.extend([%m])", false, false, "MExtend [%m]", true},
-		{"iadd", "%c += [%m]", true, true, "MExtend [%m]", true},
+		{"append", "%c.append(%m)", false, false, "MAppend %m", true, 0, false},
+		{"setindex", "%c[0] = %m", true, true, "MSetIndex 0 %m", false, 0, false},
+		{"clear", "%c.clear()", false, false, "MClear", false, 0, false},
+		{"insert", "%c.insert(0, %m)", false, false, "MInsert 0 %m", false, 0, false},
+		{"pop", "%c.pop()", false, false, "MPop", false, 0, false},
+		{"remove", "%c.remove(\"c\")", false, false, "MPop", false, 0, false},
+		{"extend", "%c.extend([%m])", false, false, "MExtend [%m]", true, 0, false},
+		{"iadd", "%c += [%m]", true, true, "MExtend [%m]", true, 0, false},
+		// argument shapes and boundary arguments (%n length, %nm1 length-1, %negn -length, %mid a middle index,
+		// %e0 / %el / %em the first / last / a middle element)
+		{"pop(0)", "%c.pop(0)", false, false, "MPop", false, 1, true},
+		{"pop(-1)", "%c.pop(-1)", false, false, "MPop", false, 1, true},
+		{"pop(-len)", "%c.pop(%negn)", false, false, "MPop", false, 1, true},
+		{"pop(len-1)", "%c.pop(%nm1)", false, false, "MPop", false, 1, true},
+		{"pop(mid)", "%c.pop(%mid)", false, false, "MPop", false, 3, true},
+		{"insert(-1)", "%c.insert(-1, %m)", false, false, "MInsert 0 %m", false, 1, true},
+		{"insert(len)", "%c.insert(%n, %m)", false, false, "MInsert 0 %m", false, 1, true},
+		{"insert(mid)", "%c.insert(%mid, %m)", false, false, "MInsert 0 %m", false, 2, true},
+		{"insert(huge)", "%c.insert(1 << 40, %m)", false, false, "MInsert 0 %m", false, 1, true},
+		{"remove(first)", "%c.remove(%e0)", false, false, "MPop", false, 1, true},
+		{"remove(last)", "%c.remove(%el)", false, false, "MPop", false, 2, true},
+		{"remove(mid)", "%c.remove(%em)", false, false, "MPop", false, 3, true},
+		{"extend(2)", "%c.extend([%m, 0])", false, false, "MExtend [%m]", false, 1, true},
+		{"extend(tuple)", "%c.extend((%m,))", false, false, "MExtend [%m]", false, 1, true},
+		{"setindex(-1)", "%c[-1] = %m", true, true, "MSetIndex 0 %m", false, 1, true},
+		{"setindex(len-1)", "%c[%nm1] = %m", true, true, "MSetIndex 0 %m", false, 1, true},
+		{"setindex(-len)", "%c[%negn] = %m", true, true, "MSetIndex 0 %m", false, 1, true},
+		{"setindex(mid)", "%c[%mid] = %m", true, true, "MSetIndex 0 %m", false, 3, true},
+		{"iadd(tuple)", "%c += (%m,)", true, true, "MExtend [%m]", false, 1, true},
 	},
 	{ // dict
-		{"setnew", "%c[%m] = 1", true, true, "MAppend %m", true},
-		{"setold", "%c[\"a\"] = 9", true, true, "MSetIndex 0 %m", false},
-		{"clear", "%c.clear()", false, false, "MClear", false},
-		{"pop", "%c.pop(\"c\")", false, false, "MPop", false},
-		{"popitem", "%c.popitem()", false, false, "MPop", false},
-		{"setdefault", "%c.setdefault(%m, 1)", false, false, "MAppend %m", true},
-		{"update", "%c.update({%m: 1})", false, false, "MExtend [%m]", true},
-		{"ior", "%c |= {%m: 1}", true, true, "MExtend [%m]", true},
+		{"setnew", "%c[%m] = 1", true, true, "MAppend %m", true, 0, false},
+		{"setold", "%c[\"a\"] = 9", true, true, "MSetIndex 0 %m", false, 0, false},
+		{"clear", "%c.clear()", false, false, "MClear", false, 0, false},
+		{"pop", "%c.pop(\"c\")", false, false, "MPop", false, 0, false},
+		{"popitem", "%c.popitem()", false, false, "MPop", false, 0, false},
+		{"setdefault", "%c.setdefault(%m, 1)", false, false, "MAppend %m", true, 0, false},
+		{"update", "%c.update({%m: 1})", false, false, "MExtend [%m]", true, 0, false},
+		{"ior", "%c |= {%m: 1}", true, true, "MExtend [%m]", true, 0, false},
+		{"pop(first)", "%c.pop(%e0)", false, false, "MPop", false, 1, true},
+		{"pop(last)", "%c.pop(%el)", false, false, "MPop", false, 2, true},
+		{"pop(mid)", "%c.pop(%em)", false, false, "MPop", false, 3, true},
+		{"pop(first,default)", "%c.pop(%e0, None)", false, false, "MPop", false, 1, true},
+		{"setdefault(new,none)", "%c.setdefault(%m)", false, false, "MAppend %m", false, 1, true},
+		{"update(existing)", "%c.update({%e0: 5})", false, false, "MSetIndex 0 %m", false, 1, true},
+		{"update(pairs)", "%c.update([(%m, 1)])", false, false, "MExtend [%m]", false, 1, true},
+		{"update(kw)", "%c.update(zz=1)", false, false, "MExtend [%m]", false, 1, true},
+		{"update(mixed)", "%c.update({%el: 5}, zz=1)", false, false, "MExtend [%m]", false, 1, true},
+		{"setold(last)", "%c[%el] = 9", true, true, "MSetIndex 0 %m", false, 2, true},
+		{"setold(mid)", "%c[%em] = 9", true, true, "MSetIndex 0 %m", false, 3, true},
+		{"ior(existing)", "%c |= {%e0: 7}", true, true, "MSetIndex 0 %m", false, 1, true},
+		{"ior(mixed)", "%c |= {%el: 7, %m: 1}", true, true, "MExtend [%m]", false, 1, true},
 	},
 	{ // set
-		{"add", "%c.add(%m)", false, false, "MAppend %m", true},
-		{"clear", "%c.clear()", false, false, "MClear", false},
-		{"discard", "%c.discard(\"c\")", false, false, "MPop", false},
-		{"pop", "%c.pop()", false, false, "MPop", false},
-		{"remove", "%c.remove(\"c\")", false, false, "MPop", false},
-		{"update", "%c.update([%m])", false, false, "MExtend [%m]", true},
+		{"add", "%c.add(%m)", false, false, "MAppend %m", true, 0, false},
+		{"clear", "%c.clear()", false, false, "MClear", false, 0, false},
+		{"discard", "%c.discard(\"c\")", false, false, "MPop", false, 0, false},
+		{"pop", "%c.pop()", false, false, "MPop", false, 0, false},
+		{"remove", "%c.remove(\"c\")", false, false, "MPop", false, 0, false},
+		{"update", "%c.update([%m])", false, false, "MExtend [%m]", true, 0, false},
+		{"discard(first)", "%c.discard(%e0)", false, false, "MPop", false, 1, true},
+		{"discard(last)", "%c.discard(%el)", false, false, "MPop", false, 2, true},
+		{"discard(mid)", "%c.discard(%em)", false, false, "MPop", false, 3, true},
+		{"remove(first)", "%c.remove(%e0)", false, false, "MPop", false, 1, true},
+		{"remove(last)", "%c.remove(%el)", false, false, "MPop", false, 2, true},
+		{"update(2)", "%c.update([%m], [0])", false, false, "MExtend [%m]", false, 1, true},
+		{"update(mixed)", "%c.update([%e0, %m])", false, false, "MExtend [%m]", false, 1, true},
+		{"update(tuple)", "%c.update((%m,))", false, false, "MExtend [%m]", false, 1, true},
 	},
 }
 
-var hostMuts = [][]string{{"add", "set", "clear"}, {"add", "set", "del", "clear"}, {"add", "del", "clear"}, {"add", "set", "clear"}}
+var hostMuts = [][]string{{"add", "set", "clear"}, {"add", "set", "del", "clear"}, {"add", "del", "clear"}, {"add", "set", "clear"}, {"add", "set", "clear"}}
 
-func init() { muts = append(muts, muts[kList]) }
+func init() { muts = append(muts, muts[kList], muts[kList]) }
 
 func findMut(kind int, name string) mutDef {
 	for _, m := range muts[kind] {
@@ -309,6 +374,18 @@ var bexprs = []bexpr{
 	{"err-index", "%c.index(3)", "m", false, true},
 	{"err-remove", "list(%c).remove(3)", "m", false, true},
 	{"err-unpack-in-for", "[a for a, b in %c]", "m", false, true},
+	// on the pair list [("a", 1), c1]: the second "pair" has length 3
+	{"pairs-dict", "dict(%c)", "p", false, true},
+	{"pairs-dict-kw", "dict(%c, z=1)", "p", false, true},
+	{"pairs-update", "{}.update(%c)", "p", false, true},
+	{"pairs-update-kw", "{}.update(%c, z=1)", "p", false, true},
+	{"pairs-unpack-comp", "[a for a, b in %c]", "p", false, true},
+	{"pairs-unpack-dictcomp", "{a: b for a, b in %c}", "p", false, true},
+	{"pairs-sorted", "sorted(%c)", "p", false, true},
+	{"pairs-min", "min(%c)", "p", false, true},
+	{"pairs-zip-star", "zip(*%c)", "p", false, false},
+	{"pairs-flatten", "[y for x in %c for y in x]", "p", false, false},
+	{"pairs-list", "[list(x) for x in %c]", "p", false, false},
 }
 
 // ---- paths (terms of C06.Model.prog / hprog) ----
@@ -370,6 +447,7 @@ type expect struct {
 type emitter struct {
 	kinds    []int
 	frozen   []bool
+	sizes    []int
 	len      []int // expected length of each collection
 	lock     []int // static nesting of live iterators over each collection
 	nattempt int
@@ -392,7 +470,14 @@ func cv(c int) string { return fmt.Sprintf("c%d", c) }
 func (e *emitter) mutSrc(s Stmt) (src, coq string, md mutDef) {
 	md = findMut(e.kinds[s.C], s.Mut)
 	lit := fmt.Sprintf("\"M%d\"", s.ID)
-	src = strings.ReplaceAll(strings.ReplaceAll(md.tmpl, "%c", cv(s.C)), "%m", lit)
+	n := e.sizes[s.C]
+	q := func(i int) string { return "\"" + base[i] + "\"" }
+	src = md.tmpl
+	for _, kv := range [][2]string{{"%negn", fmt.Sprint(-n)}, {"%nm1", fmt.Sprint(n - 1)}, {"%n", fmt.Sprint(n)}, {"%mid", fmt.Sprint(n / 2)},
+		{"%e0", q(0)}, {"%el", q(n - 1)}, {"%em", q(n / 2)}} {
+		src = strings.ReplaceAll(src, kv[0], kv[1])
+	}
+	src = strings.ReplaceAll(strings.ReplaceAll(src, "%c", cv(s.C)), "%m", lit)
 	coq = strings.ReplaceAll(md.coq, "%m", fmt.Sprint(1000+s.ID))
 	return
 }
@@ -713,6 +798,9 @@ func (e *emitter) step(s Stmt, p *path, elem int) int {
 		e.tags["builtin:"+be.name+":"+kindName[kind]] = true
 		h := &hpath{exit: "ORet"}
 		h.items = append(h.items, hitem{kind: "iterdefer", s: fmt.Sprintf("HIterDefer %d", s.C)})
+		if kind == kPairs {
+			h.items = append(h.items, hitem{kind: "iterdefer", s: fmt.Sprintf("HIterDefer %d", s.C+1)})
+		}
 		ctl := cNext
 		if be.fails {
 			ctl = cErr
@@ -934,8 +1022,8 @@ func compile(src string) (*starlark.Program, error) {
 	return prog, err
 }
 
-func runScenario(prog *starlark.Program, kinds []int, frozen []bool, limit uint64) (res result, ok bool) {
-	w := newWorld(kinds, frozen)
+func runScenario(prog *starlark.Program, kinds []int, frozen []bool, sizes []int, limit uint64) (res result, ok bool) {
+	w := newWorld(kinds, frozen, sizes)
 	r := &runner{w: w}
 	th := &starlark.Thread{}
 	globals, err := prog.Init(th, r.predeclared())
@@ -1020,6 +1108,7 @@ type line struct {
 	Frozen  []bool   `json:"frozen"`
 	Expects []expect `json:"expects,omitempty"`
 	Expected [][]string `json:"expected,omitempty"`
+	Init     [][]string `json:"init,omitempty"`
 	MustFail bool     `json:"must_fail,omitempty"`
 	Limit   uint64   `json:"limit,omitempty"`
 	Res     *result  `json:"res,omitempty"`
@@ -1071,6 +1160,7 @@ type scenario struct {
 	family string
 	kinds  []int
 	frozen []bool
+	sizes  []int
 	body   []Stmt
 }
 
@@ -1082,15 +1172,19 @@ type built struct {
 	mustFail bool
 }
 
+func initOf(sc scenario) [][]string {
+	var out [][]string
+	for i, k := range sc.kinds {
+		out = append(out, initialContent(k, sc.sizes[i]))
+	}
+	return out
+}
+
 func build(sc scenario) built {
-	e := &emitter{kinds: sc.kinds, frozen: sc.frozen, len: make([]int, len(sc.kinds)), lock: make([]int, len(sc.kinds)), tags: map[string]bool{}}
+	e := &emitter{kinds: sc.kinds, frozen: sc.frozen, sizes: sc.sizes, len: make([]int, len(sc.kinds)), lock: make([]int, len(sc.kinds)), tags: map[string]bool{}}
 	for i := range e.len {
-		e.len[i] = len(base)
-		if sc.kinds[i] == kMixed {
-			e.cont = append(e.cont, []string{"a", "1", "[2]"})
-		} else {
-			e.cont = append(e.cont, append([]string{}, base...))
-		}
+		e.cont = append(e.cont, initialContent(sc.kinds[i], sc.sizes[i]))
+		e.len[i] = len(e.cont[i])
 	}
 	next := 0
 	assignIDs(sc.body, &next)
@@ -1130,7 +1224,14 @@ func main() {
 		if frozen == nil {
 			frozen = make([]bool, len(kinds))
 		}
-		scs = append(scs, scenario{fam, kinds, frozen, body})
+		sizes := make([]int, len(kinds))
+		for i, k := range kinds {
+			sizes[i] = len(initialContent(k, 3))
+		}
+		scs = append(scs, scenario{fam, kinds, frozen, sizes, body})
+	}
+	addS := func(fam string, kinds []int, sizes []int, body ...Stmt) {
+		scs = append(scs, scenario{fam, kinds, make([]bool, len(kinds)), sizes, body})
 	}
 	at := func(i int, body ...Stmt) Stmt { return Stmt{K: "if", At: i, Body: body} }
 	for k := 0; k < 3; k++ {
@@ -1221,6 +1322,41 @@ func main() {
 		// frozen collection: iteration does not count, mutation always refused
 		add("frozen:"+kn, ks, []bool{true, false}, Stmt{K: "for", C: 0, Body: []Stmt{{K: "attempt", C: 0, Mut: "add"}, {K: "attempt", C: 1, Mut: "add"}}}, Stmt{K: "attempt", C: 0, Mut: "add"}, Stmt{K: "unpack", C: 0, N: 2})
 	}
+	// every argument shape of every mutator on collections of 1, 2 and 5 elements, at the first and the last iteration
+	for k := 0; k < 3; k++ {
+		for _, size := range []int{1, 2, 5} {
+			for _, m := range muts[k] {
+				if m.min > size || strings.Contains(m.tmpl, "\"c\"") {
+					continue
+				}
+				its := []int{0}
+				if size > 1 {
+					its = append(its, size-1)
+				}
+				for _, i := range its {
+					addS(fmt.Sprintf("size%d:%s:mutate:%s", size, kindName[k], m.name), []int{k, (k + 1) % 3}, []int{size, 3},
+						Stmt{K: "for", C: 0, Body: []Stmt{at(i, Stmt{K: "mutate", C: 0, Mut: m.name})}})
+				}
+				if !m.stmt && size == 2 {
+					addS(fmt.Sprintf("size%d-callback:%s:mutate:%s", size, kindName[k], m.name), []int{k, (k + 1) % 3}, []int{size, 3},
+						Stmt{K: "builtin", C: 0, Name: "min-key", Body: []Stmt{{K: "mutate", C: 0, Mut: m.name}}})
+					addS(fmt.Sprintf("size%d-call:%s:mutate:%s", size, kindName[k], m.name), []int{k, (k + 1) % 3}, []int{size, 3},
+						Stmt{K: "for", C: 0, Body: []Stmt{{K: "call", Body: []Stmt{{K: "mutate", C: 0, Mut: m.name}}}}})
+				}
+			}
+		}
+	}
+	// built-ins that iterate the ELEMENTS of what they iterate: [("a", 1), c1] with len(c1) == 3
+	for k := 0; k < 3; k++ {
+		for _, be := range bexprs {
+			if !strings.Contains(be.kinds, "p") {
+				continue
+			}
+			ks := []int{kPairs, k}
+			add("pairs:"+kindName[k]+":"+be.name, ks, nil, Stmt{K: "builtin", C: 0, Name: be.name}, Stmt{K: "attempt", C: 1, Mut: "add"})
+			add("pairs-in-loop:"+kindName[k]+":"+be.name, ks, nil, Stmt{K: "for", C: 1, Body: []Stmt{{K: "builtin", C: 0, Name: be.name}}}, Stmt{K: "attempt", C: 1, Mut: "add"})
+		}
+	}
 	// error paths inside built-ins (after they have begun to iterate), alone and inside a loop over the same list
 	for _, be := range bexprs {
 		if !strings.Contains(be.kinds, "m") {
@@ -1278,7 +1414,7 @@ func main() {
 			hx.Emit(line{Kind: "static-error", ID: id, Family: sc.family, Src: src, Kinds: sc.kinds, Frozen: sc.frozen, Res: &result{Msg: cerr.Error()}})
 			continue
 		}
-		res, ok := runScenario(prog, sc.kinds, sc.frozen, 0)
+		res, ok := runScenario(prog, sc.kinds, sc.frozen, sc.sizes, 0)
 		if !ok {
 			hx.Emit(line{Kind: "static-error", ID: id, Family: sc.family, Src: src, Kinds: sc.kinds, Frozen: sc.frozen, Res: &res})
 			continue
@@ -1311,7 +1447,7 @@ func main() {
 			}
 			vkey = "random:" + strings.Join(sus, "+")
 		}
-		hx.Emit(line{Kind: "scenario", ID: id, Family: sc.family, Tags: tags, Src: src, Coq: coq, Kinds: sc.kinds, Frozen: sc.frozen, Expects: expects, Expected: b.cont, MustFail: b.mustFail, Res: &res, Viol: viol, VKey: vkey})
+		hx.Emit(line{Kind: "scenario", ID: id, Family: sc.family, Tags: tags, Src: src, Coq: coq, Kinds: sc.kinds, Frozen: sc.frozen, Expects: expects, Expected: b.cont, Init: initOf(sc), MustFail: b.mustFail, Res: &res, Viol: viol, VKey: vkey})
 		// step-limit cancellation at step indices of this call
 		T := res.Steps
 		if T == 0 || res.Outcome == "cancelled" || T > 20000 {
@@ -1321,7 +1457,7 @@ func main() {
 			if *cancelEvery > 1 && !(n <= 2 || n == T || int((n+uint64(i))%uint64(*cancelEvery)) == 0) {
 				continue
 			}
-			r2, ok := runScenario(prog, sc.kinds, sc.frozen, n)
+			r2, ok := runScenario(prog, sc.kinds, sc.frozen, sc.sizes, n)
 			if !ok {
 				continue
 			}
